@@ -50,6 +50,7 @@ type Sched struct {
 	budget   int64
 	hang     bool
 	deadlock int
+	mutual   int // deadlocks in which every task was still alive
 
 	conns  [MaxTasks]*Conn
 	nconns int
@@ -234,6 +235,15 @@ func (s *Sched) block() {
 		// timeout firing. Close all conns; every blocked reader wakes up
 		// with EOF.
 		s.deadlock++
+		alive := true
+		for i := 0; i < s.n; i++ {
+			if s.tasks[i].state == stDone {
+				alive = false
+			}
+		}
+		if alive {
+			s.mutual++ // nobody has left: the tasks wait for each other
+		}
 		s.closeAll()
 		next = s.pick(-1)
 		if next < 0 {
@@ -287,6 +297,11 @@ func (s *Sched) closeAll() {
 		}
 	}
 }
+
+// Mutual returns how often all tasks were parked while none had finished.
+//
+//go:norace
+func (s *Sched) Mutual() int { return s.mutual }
 
 // Switches returns the number of task switches so far.
 //
